@@ -157,3 +157,25 @@ Theorem C05_c_kernel_then_trace :
                  (Z.of_nat j - cw_shift l1 l2 window (Z.of_nat i - 1))%Z)
       = Some (Mfun usq s1 s2 i j).
 Proof. intros window p m mld psi Hw usq s1 s2 d Hd1 Hd2 H1 H2 Hp1 Hp2. exact (c_kernel_then_trace window p m mld psi Hw s1 s2 d Hd1 Hd2 H1 H2 Hp1 Hp2). Qed.
+
+(* (7) The START CELL on a psi-relaxed end.  dtw_best_path (C) scans the chains of -1 marks of the last column and the
+   last row and then chooses among the two candidates with a four-way rule, regenerated from dd_dtw.c as
+   Gen_ctrace.c_bestpath_end (the translator also pins the relaxed-end test, the two scan loops and the call of the
+   custom-start traceback).  It is the rule of dtw.best_path / _relaxed_end as modelled in RelaxedEnd.v, for which
+   C05_warping_path_cost_is_distance is proved: given the same scan results and the same two cells, both engines start
+   the traceback in the same cell. *)
+From DV Require Import CTraceEnd.
+
+Theorem C05_c_start_cell_rule_is_the_python_rule :
+  forall (r c rr cc psi_1e psi_2e : nat) (vr vc : cost), (rr <= r)%nat -> (cc <= c)%nat ->
+  c_bestpath_end (Z.of_nat r) (Z.of_nat c) (Z.of_nat rr) (Z.of_nat cc) (Z.of_nat psi_1e) (Z.of_nat psi_2e) vr vc =
+  (Z.of_nat (fst (py_end_rule r c rr cc psi_1e psi_2e vr vc)), Z.of_nat (snd (py_end_rule r c rr cc psi_1e psi_2e vr vc))).
+Proof. exact c_end_rule_is_py_end_rule. Qed.
+
+Theorem C05_relaxed_end_is_that_rule :
+  forall (val : nat -> nat -> cost) (r c psi_1e psi_2e : nat),
+  relaxed_end val r c psi_1e psi_2e =
+  if negb (marked val r c psi_1e psi_2e r c) then (r, c)
+  else py_end_rule r c (scan_up val r c psi_1e psi_2e r r) (scan_left val r c psi_1e psi_2e c c) psi_1e psi_2e
+         (val (scan_up val r c psi_1e psi_2e r r) c) (val r (scan_left val r c psi_1e psi_2e c c)).
+Proof. exact relaxed_end_is_the_rule. Qed.
